@@ -249,6 +249,12 @@ def _weave_states_in_region(
                     for arg in created_block_args:
                         assert isinstance(arg.type, accfg.StateType)
                         acc_name = arg.type.accelerator.data
+                        if acc_name not in after_for_state:
+                            # the state is invalidated at the end of the loop body (e.g. by a function
+                            # call after the last setup): yield a new, unknown state
+                            empty_setup = accfg.SetupOp([], [], acc_name)
+                            rewriter.insert_op(empty_setup, InsertPoint.before(yield_op))
+                            after_for_state[acc_name] = empty_setup.out_state
                         # extend the yield op to yield the state variable
                         yield_op.operands = (
                             *yield_op.operands,
